@@ -302,7 +302,7 @@ def end_to_end(ctx):
     rng = ctx.rng
     fnd = msgx.Findings(ctx)
     corpus = [(r, f) for r, f in msgx.WITNESSES] + fixtures()
-    ngen = 260 if ctx.thorough else 44
+    ngen = 420 if ctx.thorough else 44
     for i in range(ngen):
         corpus.append(msgx.gen_message(rng, hostile=(i % 4 == 3)))
     featdist = {}
@@ -480,7 +480,23 @@ def _run_batch(ctx, w, part, fnd, stats, coq_msgs, coq_meta):
                 break
         # partials
         secs = [(0, b"BODY[]", "BODY.PEEK[]", full), (1, b"BODY[HEADER]", "BODY.PEEK[HEADER]", H), (2, b"BODY[TEXT]", "BODY.PEEK[TEXT]", T)]
-        for _ in range(4 if ctx.thorough else 3):
+        # other sections: a numbered part, its MIME header, a header subset (no model comparison:
+        # the slice and termination rules are checked on the real octets)
+        for rname, cname in ((b"BODY[1]", "BODY.PEEK[1]"), (b"BODY[1.MIME]", "BODY.PEEK[1.MIME]"),
+                             (b"BODY[HEADER.FIELDS (Subject From)]", "BODY.PEEK[HEADER.FIELDS (Subject From)]"),
+                             (b"BODY[2]", "BODY.PEEK[2]")):
+            if rng.random() < 0.5:
+                continue
+            out, res = _fetch(ctx, w, f"t FETCH {n} ({cname})", fnd)
+            fr = [r for r in res if r.get("kind") == "fetch" and any(k == rname for k, _ in r["items"])]
+            ok, line = _tagged_ok(out)
+            if ok and len(fr) == 1 and R.fetch_item(fr[0], rname) is not None:
+                whole = R.fetch_item(fr[0], rname)
+                stats["other_sections"] = stats.get("other_sections", 0) + 1
+                if not whole.endswith(b"\r\n"):
+                    fnd.report(None, f"{cname} does not end in CRLF", dict(meta, item=cname, tail=repr(whole[-40:])))
+                secs.append((9, rname, cname, whole))
+        for _ in range(5 if ctx.thorough else 4):
             code, rname, cname, whole = rng.choice(secs)
             L = len(whole)
             o = rng.choice([0, 0, 1, rng.randrange(L + 1), max(L - 1, 0), L, L + 3, 2 ** 32])
@@ -498,7 +514,7 @@ def _run_batch(ctx, w, part, fnd, stats, coq_msgs, coq_meta):
                 fnd.report(None, "a <o.n> partial is not that slice of the item",
                            dict(meta, command=f"FETCH {n} ({cname}<{o}.{k}>)", got=repr(got[:200]), expected=repr(whole[o:o + k][:200])))
             vo = value_octets(fr[0]["raw"], n, rn)
-            if vo is not None and len(vo) < 400:
+            if vo is not None and len(vo) < 400 and code != 9:
                 observed.append((code, (o, k), vo))
         # repeated fetch
         out, res = _fetch(ctx, w, f"t FETCH {n} (BODY.PEEK[] RFC822.SIZE)", fnd)
